@@ -21,6 +21,7 @@
 """
 import json
 import os
+import re
 import sys
 import time
 import warnings
@@ -156,6 +157,8 @@ def run(chk, replay=None):
         rc = json.load(open(replay))
         case = rc.get('input', rc)
         net = c08_net.Net(chk, drv, L)
+        net.chain_conv = dict(re.findall(r'\("([AB])", "(\w+)"\)', text[text.index('def chainArgConv'):].split('\n\n')[0]))
+        case['_conv'] = net.chain_conv
         if not net.replay(case, routed_pairs(text)):
             print('replay: this replay file (kind %s) is not a network-level case; its input is: %s'
                   % (rc.get('kind'), json.dumps(case)[:400]))
@@ -430,6 +433,7 @@ def run(chk, replay=None):
 
     # ---- 3d. TwoPort network level (equation(), sources, cascades, connections, pivots)
     net = c08_net.Net(chk, drv, L)
+    net.chain_conv = dict(re.findall(r'\("([AB])", "(\w+)"\)', text[text.index('def chainArgConv'):].split('\n\n')[0]))
     net.run(routed_pairs(text))
     counterexamples += net.counterexamples
     disagreements.extend(net.disagreements)
